@@ -56,6 +56,14 @@ Shapes == {
   [pos |-> "dimension", q |-> SelQ(<<I(Boom(A), "b")>>, Table(<<"m">>, ""), CmpE(">", A, LN(1)))],
   [pos |-> "deep",    q |-> [SelQ(<<Star>>, Table(<<"c">>, ""), None) EXCEPT !.with =
                               <<[name |-> "c", q |-> SelQ(<<I(A, ""), I(Sub(NQ(<<I(Boom(Col("p")), "p")>>, None)), "s")>>, T, CmpE(">", Boom(A), LN(0)))]>>]],
+  \* a fault in the select list of a statement that also has a star / a row-scoped subquery / a lazily read CTE (<-c) in it
+  [pos |-> "starfault", q |-> SelQ(<<I(Boom(A), "b"), Star>>, T, None)],
+  [pos |-> "starwhere", q |-> SelQ(<<Star>>, T, CmpE(">", Boom(A), LN(1)))],
+  [pos |-> "subfault",  q |-> SelQ(<<I(A, ""), I(Sub(NQ(<<I(Col("p"), "")>>, None)), "s"), I(Boom(A), "b")>>, T, None)],
+  [pos |-> "lazycte",   q |-> [SelQ(<<I(A, ""), I(Sub(SelQ(<<I(A, "")>>, Table(<<"<-", "c">>, ""), CmpE(">", A, LN(1)))), "s")>>, T, None)
+                                 EXCEPT !.with = <<[name |-> "c", q |-> SelQ(<<I(Boom(A), "a")>>, T, None)]>>]],
+  [pos |-> "lazycte_in", q |-> [SelQ(<<I(A, "")>>, T, InSub(A, SelQ(<<I(A, "")>>, Table(<<"<-", "c">>, ""), None)))
+                                 EXCEPT !.with = <<[name |-> "c", q |-> SelQ(<<I(Boom(A), "a")>>, T, CmpE(">", A, LN(1)))]>>]],
   [pos |-> "inlist",  q |-> SelQ(<<I(A, "")>>, T, InE(FALSE, A, <<Boom(LN(1)), LN(4)>>))],
   [pos |-> "between", q |-> SelQ(<<I(A, "")>>, T, Between(FALSE, Boom(A), LN(1), Boom(LN(3))))],
   [pos |-> "fnarg",   q |-> SelQ(<<I(Fn("concat", <<Boom(Col("s")), LS(<<33>>)>>), "v")>>, T, None)],
